@@ -8,6 +8,14 @@ SPEC = {
         {'pkg': 'execute/tokendata', 'pkgname': 'tokendata',
          'src': 'harness/execute/tokendata/c19_test.go', 'test': 'TestVerif_C19', 'race': True,
          'sinks': {'C19_bg': 'bg_judge'}, 'n': {'quick': 150, 'thorough': 4000}},
+        {'pkg': 'execute/tokendata', 'pkgname': 'tokendata',
+         'src': 'harness/execute/tokendata/c19_test.go', 'test': 'TestVerif_C19_comp', 'race': True,
+         'sinks': {'C19_comp': 'comp_judge'}, 'n': {'quick': 60, 'thorough': 2000}},
+        {'pkg': 'execute/tokendata', 'pkgname': 'tokendata',
+         'src': ['harness/execute/tokendata/c19_test.go', 'harness/execute/tokendata/c19ctor_test.go'], 'test': 'TestVerif_C19_ctor',
+         'sinks': {'C19_ctor': 'ctor_judge'}, 'n': {'quick': 12, 'thorough': 120}},
+        {'pkg': 'execute', 'src': 'harness/execute/c19_test.go', 'test': 'TestVerif_C19_plugin', 'fakes': True, 'race': True,
+         'sinks': {'C19_plugin': 'plug_judge'}, 'n': {'quick': 12, 'thorough': 300}},
     ],
     'rule': 'schedules of 4-12 harness actions (Observe of 1-5 or all 8 pool messages, incl. a second message carrying an '
             'already used message id; return of a running fetch as ready / supported-token-not-ready / error / missing entry / '
@@ -19,6 +27,14 @@ SPEC = {
             'waiting in the queue (in-package view) / ids held at the gate after quiescence, cache size, Close returned within 2 s, goroutine count back to the count '
             'before the observer was built. Samples whose Observe straddled an expiry instant are discarded and redrawn. '
             'non-trivial = >= 6 events; distinct by full input+output',
+    'rule_parts': 'comp: the same schedules through NewCompositeObservers(NewBackgroundObserver(gated observer)) - Observe, IsTokenSupported '
+                  'and Close of the composite, judged against the model composed with the merge view (unsupported token = ready no-op, '
+                  'slot-count mismatch = error). ctor: NewConfigBasedCompositeObservers built offline (stub reader accepting Bind, stub '
+                  'encoder, attestation URL never called) for NumWorkers 0/1/2/4 and all orders of {30, 90, 270} ms as expiry / cleanup / '
+                  'observe timeout; observed: child kind, numWorkers, goroutines started, expirationInterval, observeTimeout (fields), '
+                  'cleanup period measured on the cache (an already expired entry disappears at the first tick), goroutines left after '
+                  'Close. plugin: execute.Plugin literal with that composite, getMessagesObservation before / after the gate opens '
+                  '(1-5 messages, 1-3 workers), exactly one fetch per message, Plugin.Close, goroutine count.',
     'trusted': ['the underlying TokenDataObserver is an oracle (gate-controlled fake); it is assumed to return when its context ends',
                 'IsTokenSupported is an oracle (flag carried in the token)',
                 'wall clock: expiry decisions are sampled only >= 1.5 ms away from the expiry instant',
@@ -42,6 +58,8 @@ SPEC = {
     'level_note': 'Trusted: Coq kernel, hand-written model incl. its channel semantics, differential harness, race detector. '
                   'Liveness ("eventually fetched") is a one-step progress statement under assumed fairness. A message being fetched '
                   '(dequeued, not yet cached) is queued and fetched again by the next Observe - modelled as is. No axioms.',
-    'modelled': 'backgroundObserver.Observe / worker / Close, msgQueue.enqueue / dequeue / containsMsg, inMemTokenDataCache get / set / '
+    'modelled': 'compositeTokenDataObserver.Observe / merge / initTokenDataObservations (as a view on the model output), the '
+                'background / foreground choice and parameter passing of NewConfigBasedCompositeObservers (the configuration is the '
+                'specification), backgroundObserver.Observe / worker / Close, msgQueue.enqueue / dequeue / containsMsg, inMemTokenDataCache get / set / '
                 'expiration loop; the clock, the scheduler and the underlying observer are inputs',
 }
